@@ -46,5 +46,7 @@ def random_unicode(rng, n, maxlen=12):
 
 def unterminated():
     heads = ['"', '$"', 'x := "', 'print($"a', '"\\', '"\\x', '"\\x4', '$"${', '$"${a', '$"${{', '$"a${b}c${', '"é', '$"é${',
-             '$', '$a', '$ab"', '$"$', '$"$a', '"$', '"\\q', '"\\xg', '"\\x4g', "$\"${'}\"", '$"${"}"}"']
+             '$', '$a', '$ab"', '$"$', '$"$a', '"$', '"\\q', '"\\xg', '"\\x4g', "$\"${'}\"", '$"${"}"}"',
+             # every keyword where an operand is expected (exercises the rendering of each token kind in parse messages)
+             'x := continue', 'x := break', 'x := else', 'x := in', 'x := while', 'x := for', 'x := return', 'x := if', 'if', 'fn']
     return heads + [h + "\n" for h in heads] + ["print(1)\n" + h for h in heads]
